@@ -5,7 +5,7 @@ from . import common, real as R
 from .common import Sym
 import yldprolog.engine as E
 
-ATOMS = ['a', 'b', 'c']
+ATOMS = ['a', 'b', 'c', 'txt']      # 'txt' is also the text of a Python string used as a constant
 
 
 def V(i):
@@ -19,6 +19,9 @@ def gen_term(rnd, nvars, depth):
     if r < 0.55 or depth <= 0:
         return [Sym('a'), rnd.choice(ATOMS)]
     if r < 0.62:
+        if rnd.random() < 0.45:
+            # other Python values used as constants (in the model: atoms with a reserved spelling)
+            return [Sym('a'), rnd.choice(['$py:None', "$py:'txt'"])]
         return [Sym('i'), rnd.randrange(3)]
     if r < 0.9:
         return [Sym('f'), rnd.choice(['f', 'g'])] + [gen_term(rnd, nvars, depth - 1) for _ in range(rnd.randint(0, 3))]
@@ -300,6 +303,27 @@ def real_unify_alternatives(prefix, alts, watch):
     del g
     gc.collect()
     return out, R.bound_count()
+
+
+def fix_model(m):
+    """Python values used as constants are atoms with a reserved spelling in the model: in the model's
+    to_python output they read as the values themselves"""
+    if isinstance(m, list):
+        return [fix_model(x) for x in m]
+    if isinstance(m, str) and not isinstance(m, Sym):
+        if m == '$py:None':
+            return Sym('None')
+        if m == "$py:'txt'":
+            return 'txt'
+    return m
+
+
+def _fix_py_entries(m):
+    if isinstance(m, list):
+        if m and isinstance(m[0], Sym) and str(m[0]) == 'py':
+            return [m[0]] + [fix_model(x) for x in m[1:]]
+        return [_fix_py_entries(x) for x in m]
+    return m
 
 
 def model_cmd(pairs, watch, sched=('all',), fuel=600):
